@@ -1,17 +1,65 @@
 (* C08 - the parser consumes every valid program entirely and builds the tree it denotes.
-   Property theorems only; proofs live in Proofs/ParserProofs.v, Proofs/ParserSpecs.v. *)
-From PV Require Import Base.Prelude Model.Tokens Model.Parser Proofs.ParserProofs.
+   Property theorems only; proofs live in Proofs/ParserProofs.v, ParserSpecs.v, ParserTheorems.v.
 
-(* _accept: the token returned is the first significant token at or after the cursor, it lies before the
-   short-if fence and the end of the input, and the cursor ends right after it; otherwise nothing moves *)
-Theorem C08_accept : forall ts p q mx,
-  pat_nontrivia p = true -> 0 <= q ->
-  match accept ts p (q, mx) with
-  | Ok (None, st) => st = (q, mx)
-  | Ok (Some (i, t), st) =>
-      st = (i + 1, mx) /\ q <= i /\ i < zlen ts /\ i < lim ts mx /\ [i] = sig ts q (i + 1) /\
-      tok_at ts i = Some t /\ matches t p = true
-  | Err _ => False
-  end.
-Proof. exact accept_spec. Qed.
-Print Assumptions C08_accept.
+   lua_parse ts  : the model of Parser.process_tokens (pico8/lua/parser.py) on the token list ts, with
+                   BINOP_PATS / UNOP_PATS regenerated from the source; Ok (root, end position) or the
+                   exception.  The tree carries a leaf for every token the parser accepted (Tok / Kw /
+                   Paren / Hid, see Spec/LuaTokens.v).
+   sig ts a b    : the indices in [a, b) of the tokens that are not white space, newlines or comments
+   leaves t      : the token indices at the leaves of t, left to right (Spec/LuaGrammar.v)
+   next_newline ts q : index of the first newline token at or after q (the number of tokens if none)
+   All statements are for every token list, valid program or not. *)
+From PV Require Import Base.Prelude Spec.LuaTokens Spec.LuaGrammar Model.Tokens Model.Parser Model.ParserInst
+  Proofs.ParserProofs Proofs.ParserSpecs Proofs.ParserTheorems.
+
+(* the recursion budget the model supplies (number of tokens + 2 levels) is never exhausted: OutOfFuel is not
+   an outcome, so every result of the model is a result of the modelled recursive descent *)
+Theorem C08_fuel : forall ts, lua_parse ts <> Err OutOfFuel.
+Proof. intros ts H. pose proof (lua_parse_spec ts) as S. rewrite H in S. apply S. reflexivity. Qed.
+Print Assumptions C08_fuel.
+
+(* positions: the root is a Chunk spanning [0, end]; every node has start <= end <= the end of the node it
+   is part of (ranges_ok is the predicate the monitor evaluates on the real parser's tree) *)
+Theorem C08_ranges : forall ts root e, lua_parse ts = Ok (root, e) ->
+  0 <= e <= zlen ts /\ (exists fs, root = Node tChunk 0 e false [Lst fs]) /\ ranges_ok e root = true.
+Proof.
+  intros ts root e H. pose proof (lua_parse_spec ts) as S. rewrite H in S. destruct S as (H1 & _ & H3 & H4).
+  split; [exact H1|]. split; [exact H4 | exact (wf_ranges_ok ts root e H3)].
+Qed.
+Print Assumptions C08_ranges.
+
+(* every significant token of the consumed range is accounted for by exactly one leaf of the tree, in
+   source order - nothing inside [0, end) is skipped or read twice *)
+Theorem C08_leaves : forall ts root e, lua_parse ts = Ok (root, e) -> leaves root = sig ts 0 e.
+Proof. intros ts root e H. pose proof (lua_parse_spec ts) as S. rewrite H in S. apply S. Qed.
+Print Assumptions C08_leaves.
+
+Corollary C08_leaves_increasing : forall ts root e, lua_parse ts = Ok (root, e) -> increasing (leaves root) = true.
+Proof. intros ts root e H. rewrite (C08_leaves ts root e H). apply increasing_sig. Qed.
+Print Assumptions C08_leaves_increasing.
+
+(* a short-form if never extends past the first newline token after its condition: its node has the shape
+   [if; [(condition parts, block) ; else part]] and its end is at most the index of that newline, where
+   cond_close is the index of the last token of the condition (the closing parenthesis) *)
+Theorem C08_shortif_fence : forall ts root e, lua_parse ts = Ok (root, e) ->
+  forall s en fs, In (Node tStatIf s en true fs) (nodes root) ->
+  exists k pr ep, fs = [k; Lst (Lst pr :: ep)] /\ en <= next_newline ts (cond_close pr + 1).
+Proof.
+  intros ts root e H s en fs Hin. pose proof (lua_parse_spec ts) as S. rewrite H in S.
+  destruct S as (_ & _ & Hw & _).
+  destruct (wf_nodes ts root e Hw _ _ _ _ _ Hin) as (_ & _ & Hf). apply Hf; reflexivity.
+Qed.
+Print Assumptions C08_shortif_fence.
+
+(* non-vacuity: `if (a) b=1 <newline> c=2` parses, the short-if ends before the newline (token 9) and the
+   second assignment is a statement of the root *)
+Example C08_nonvacuous :
+  let sp := mkTok CSpace 0 " "%bs " "%bs in
+  let nm c := mkTok CName 0 c c in
+  let sy c := mkTok CSymbol 0 c c in
+  let ts := [mkTok CKeyword 0 "if"%bs "if"%bs; sp; sy "("%bs; nm "a"%bs; sy ")"%bs; sp; nm "b"%bs; sy "="%bs;
+             mkTok CNumber 0 "1"%bs "1"%bs; mkTok CNewline 0 [10] [10]; nm "c"%bs; sy "="%bs;
+             mkTok CNumber 0 "2"%bs "2"%bs; mkTok CNewline 0 [10] [10]] in
+  exists fs1 fs2 st2, lua_parse ts = Ok (Node tChunk 0 13 false [Lst [Node tStatIf 0 9 true fs1; st2]], 13) /\
+                      st2 = Node tStatAssignment 9 13 false fs2.
+Proof. cbv zeta. eexists _, _, _. split; vm_compute; reflexivity. Qed.
